@@ -74,6 +74,7 @@ func serializeSignedMessage(e *Exchange, certSha256 []byte, validityUrl string, 
 		// "4. The bytes of the canonical CBOR serialization (Section 3.5) of a CBOR map
 		// mapping:" [spec text]
 		mes := []*cbor.MapEntryEncoder{}
+		var headersErr error
 
 		// "4.1. If cert-sha256 is set: The text string "cert-sha256" to the byte string
 		// cert-sha256." [spec text]
@@ -108,9 +109,12 @@ func serializeSignedMessage(e *Exchange, certSha256 []byte, validityUrl string, 
 			// 3.4) of exchange's headers."
 			cbor.GenerateMapEntry(func(keyE *cbor.Encoder, valueE *cbor.Encoder) {
 				keyE.EncodeTextString("headers")
-				e.encodeExchangeHeaders(valueE)
+				headersErr = e.encodeExchangeHeaders(valueE)
 			}),
 		)
+		if headersErr != nil {
+			return nil, headersErr
+		}
 
 		enc := cbor.NewEncoder(&buf)
 		if err := enc.EncodeMap(mes); err != nil {
